@@ -14,7 +14,7 @@ CFG = dict(
          "the model's file. Non-trivial = a file with a header and at least one record was judged; distinct by input line.",
     nontrivial=["ljh22-records", "ljh3-records", "off-records", "ljh22-100+", "ljh3-100+", "off-100+"],
     jobs=seeds(1, 4),
-    lean_files=["C05", "ComposeFile", "ComposeEndToEnd"],
+    lean_files=["C05", "ComposeFile", "ComposeEndToEnd", "EmtBounds"],
     trusted_base=["Go int32/int64 conversions and wrap-around as transcribed (twos / mod 2^n); float32(x) conversions are done by Go and "
                   "travel as bit patterns",
                   "encoding/json (number and string formatting), fmt %e/%.6f/%d and time.Format are not modelled: the header text the "
@@ -95,4 +95,12 @@ THEOREMS = [
     ("DastardV.Lemmas.ComposeEndToEnd", "DastardV.Compose.prepared_source_to_ljh22_file"),
     ("DastardV.Lemmas.ComposeEndToEnd", "DastardV.Compose.lancero_card_to_files"),
     ("DastardV.Lemmas.ComposeEndToEnd", "DastardV.Compose.abaco_packets_to_files"),
+    ("DastardV.Lemmas.EmtBounds", "DastardV.Compose.shouldRecord_le"),
+    ("DastardV.Lemmas.EmtBounds", "DastardV.Compose.emtSpecs_le"),
+    ("DastardV.Lemmas.EmtBounds", "DastardV.Compose.triggerData_recs_le"),
+    ("DastardV.Lemmas.EmtBounds", "DastardV.Compose.opBlock_recs_le"),
+    ("DastardV.Lemmas.EmtBounds", "DastardV.Compose.runOps_recs_le"),
+    ("DastardV.Lemmas.EmtBounds", "DastardV.Compose.run_recs_le_len"),
+    ("DastardV.Lemmas.EmtBounds", "DastardV.Compose.run_recs_le"),
+    ("DastardV.Lemmas.EmtBounds", "DastardV.Compose.pipeline_to_ljh3_file_any_mode"),
 ]
